@@ -161,6 +161,20 @@ fn collide_pair_x(stats: &mut Stats, a: &Vec<P>, b: &Vec<P>, class: &str, betwee
     if let Some(g) = g { check_graph_x(stats, &g, &[(a, 0), (b, 1)], class, &detail, between_inputs_only); }
 }
 
+/// A collided with B, and the result collided with a third path C: the later pieces of an edge divided in the SECOND collision must keep
+/// the label of the path the edge came from (an edge that starts at a crossing of A and B is not that point's only edge)
+fn collide_chain(stats: &mut Stats, a: &Vec<P>, b: &Vec<P>, c: &Vec<P>, class: &str) {
+    let detail = || format!("A={:?} B={:?} C={:?}", a, b, c);
+    let (a2, b2, c2) = (a.clone(), b.clone(), c.clone());
+    let g = run_guarded(stats, PROP, "collide", &detail, move || {
+        let ga = GraphPath::from_merged_paths(a2.iter().map(|p| (p, PathLabel(0))));
+        let gb = GraphPath::from_merged_paths(b2.iter().map(|p| (p, PathLabel(1))));
+        let gc = GraphPath::from_merged_paths(c2.iter().map(|p| (p, PathLabel(2))));
+        ga.collide(gb, ACC).collide(gc, ACC)
+    });
+    if let Some(g) = g { check_graph_x(stats, &g, &[(a, 0), (b, 1), (c, 2)], class, &detail, true); }
+}
+
 fn self_collide_set(stats: &mut Stats, set: &Vec<P>, class: &str) {
     let detail = || format!("self_collide of {:?}", set);
     let s2 = set.clone();
@@ -210,6 +224,12 @@ pub fn search(seed: u64, n: u64) {
                 stats.case(&format!("odd self_collide {} {:?}", k, p), true);
                 self_collide_set(&mut stats, &vec![p], &format!("odd_self.{}", k));
             }
+        } else if it % 10 == 7 {
+            // three operands collided in turn
+            let (sa, sb, sc) = (rand_shape(&mut rng), rand_shape(&mut rng), rand_shape(&mut rng));
+            stats.count("input.chain_of_3");
+            stats.case(&format!("chain A={:?} B={:?} C={:?}", sa.path, sb.path, sc.path), true);
+            collide_chain(&mut stats, &vec![sa.path], &vec![sb.path], &vec![sc.path], "chain_of_3");
         } else if it % 5 == 4 {
             // one graph collided with itself: a set of overlapping simple shapes under one label
             let k = 2 + rng.i(2) as usize;
